@@ -222,7 +222,7 @@ JUNK = [' title: x', 'title x', 'unknown: v', '--- ', '----', ' ---', '}', '{', 
 
 
 # ----------------------------------------------------------------- versions
-GO_POOL = ['go1.18.10', 'go1.19', 'go1.19.5', 'go1.20', 'go1.20.14', 'go1.21rc1', 'go1.21.0', 'go1.21.13', 'go1.22rc2', 'go1.22.0',
+GO_POOL = ['go1.18.10', 'go1.19', 'go1.19.5', 'go1.20', 'go1.20.14', 'go1.21', 'go1.21rc1', 'go1.21.0', 'go1.21.13', 'go1.22', 'go1.22rc2', 'go1.22.0',
            'go1.22.12', 'go1.23.0', 'go1.23.8', 'go1.24rc1', 'go1.24.2']
 SEMVER_POOL = ['v0.13.0', 'v0.14.0-pre.1', 'v0.14.0', 'v0.14.2', 'v0.15.0-pre.1', 'v0.15.0-pre.2', 'v0.15.0', 'v0.15.3', 'v0.16.0-pre.1',
                'v1.0.0-pre.3', 'v1.0.0', 'v1.1.0', 'v2.0.0']
